@@ -14,8 +14,8 @@ def ext(ctx, *names):
 
 
 def stream_func(ctx):
-    fis = [f for f in ctx.repo.find_funcs(module='dataflows.processors.stream')
-           if f.all_params == ['package'] and f.is_generator]
+    from sa.model import package_steps
+    fis = [f for f in package_steps(ctx.repo) if f.module.name == 'dataflows.processors.stream']
     if len(fis) != 1:
         raise AnalysisError('stream: package step function not found')
     return fis[0]
@@ -87,6 +87,7 @@ def r15_descriptor_after_loop(ctx, rule='R15'):
     pr = db.methods.get('process_resources')
     if pr is None:
         raise AnalysisError('DumperBase.process_resources not found')
+    pr = ctx.N(pr)       # the loop may live in a generator process_resources delegates to (yield from self.<helper>(resources))
     lp = resource_loop_pred(ctx, pr, [pr.params[1]])
     preds = {'HANDLE_DP': lambda n: isinstance(n, ast.Call) and isinstance(n.func, ast.Attribute)
              and n.func.attr == 'handle_datapackage',
@@ -128,6 +129,7 @@ def r15_descriptor_write(ctx, rule='R15'):
     hd = fd.methods.get('handle_datapackage')
     if hd is None:
         raise AnalysisError('FileDumper.handle_datapackage not found')
+    hd0, hd = hd, ctx.N(hd)      # helpers inlined, module constants folded (a named descriptor file name is the same name)
     preds = {'DUMP': ext(ctx, 'json.dump'),
              'CLOSE': lambda n: isinstance(n, ast.Call) and isinstance(n.func, ast.Attribute) and n.func.attr == 'close',
              'WRITE_OUT': lambda n: isinstance(n, ast.Call) and isinstance(n.func, ast.Attribute)
@@ -165,7 +167,7 @@ def r15_descriptor_write(ctx, rule='R15'):
         for n in ast.walk(m.tree):
             if isinstance(n, ast.Call) and isinstance(n.func, ast.Attribute) and n.func.attr == 'write_file_to_output':
                 if any(isinstance(a, ast.Constant) and a.value == 'datapackage.json' for a in n.args):
-                    if ctx.repo.enclosing_func(n) is not hd:
+                    if ctx.repo.enclosing_func(n) is not hd0:
                         others.append(n)
     ctx.run.check(not others, rule, hd.where, hd.qualname, "single writer of 'datapackage.json'",
                   'another function writes datapackage.json: %s' % ', '.join(where(ctx.repo, o) for o in others))
@@ -185,7 +187,10 @@ def rows_processor(ctx):
                     for n in own_nodes(m.node))]
     if len(cands) != 1:
         raise AnalysisError('FileDumper: the method that finalises a data file (calls finalize_file) not found')
-    return cands[0]
+    # what the method does, wherever it is written: private helpers of the class it delegates to (a sub-generator with the row loop,
+    # a finishing method) are inlined; the calls the rules name stay calls
+    return ctx.N(cands[0], keep=('hash_handler', 'write_file_to_output', 'inc_attr', 'set_attr', 'get_attr', 'finalize_file',
+                                 'insert_hash_in_path', 'write_row'))
 
 
 def r15_datafile_order(ctx, rule='R15'):
@@ -300,10 +305,23 @@ def stream_roles(ctx):
             and (f.parent is fac or (f.parent is None and f.cls is None and f.module is step.module))]
     writers = [f for f in sibs if not f.is_generator and any(isinstance(n, ast.Call) and isinstance(n.func, ast.Attribute)
                                                                and n.func.attr == 'write' for n in own_nodes(f.node))]
-    rowgens = [f for f in sibs if f.is_generator and row_loops(f)]
+    rowgens = [f for f in sibs if f.is_generator and row_loops(f) and f.all_params != ['package']]   # not a piece of the step itself
     if len(writers) != 1 or len(rowgens) != 1:
         raise AnalysisError('stream: line writer / row writer not found by role (%d / %d candidates)' % (len(writers), len(rowgens)))
-    return dict(factory=fac, write=writers[0], rows=rowgens[0], step=step)
+    # names under which the line writer is reachable: its own name, locals bound to functools.partial(<writer>, ...), and the
+    # parameter of the row writer that such a local is bound to through functools.partial(<row writer>, <that local>)
+    wnames = {writers[0].name}
+    is_partial = lambda v: isinstance(v, ast.Call) and u(v.func) in ('partial', 'functools.partial') and v.args
+    for _ in range(2):
+        for n in ast.walk(fac.node):
+            if isinstance(n, ast.Assign) and len(n.targets) == 1 and isinstance(n.targets[0], ast.Name) and is_partial(n.value):
+                if isinstance(n.value.args[0], ast.Name) and n.value.args[0].id in wnames:
+                    wnames.add(n.targets[0].id)
+                if isinstance(n.value.args[0], ast.Name) and n.value.args[0].id == rowgens[0].name:
+                    for i, a in enumerate(n.value.args[1:]):
+                        if isinstance(a, ast.Name) and a.id in wnames and i < len(rowgens[0].params):
+                            wnames.add(rowgens[0].params[i])
+    return dict(factory=fac, write=writers[0], rows=rowgens[0], step=step, write_names=tuple(sorted(wnames)))
 
 
 def one_line_per_object(ctx, write_fi):
